@@ -1,1 +1,4 @@
 import HsVerif.Props.C20
+import HsVerif.Props.C19
+import HsVerif.Drv.Quorum
+import HsVerif.Drv.IDSet
